@@ -8,6 +8,7 @@ from p_c08 import derives, implied
 def explore_retention(ctx, path, len_rx, bound, inline=None):
     """Explore `path`; the vector whose `len()` is taken (callee matching len_rx) is iterated: its i-th next() is Some iff i < len."""
     eng = ctx.engine(loop_bound=bound, max_paths=20000, inline=inline or [])
+    eng.auto_inline = ctx.new_function_auto()        # helpers extracted from these small units are looked into, whatever module they live in
     state = {}
 
     def hook(engine, ev):
@@ -104,6 +105,7 @@ def check(rep, tier, seed):
     c2 = [p for p in sctx.idx.files if p.endswith("::roll_if_needed")]
     if len(c2) == 1:
         e3 = sctx.engine()
+        e3.auto_inline = sctx.new_function_auto()
         for i, r in enumerate(e3.explore(c2[0])):
             ar = [e for e in r.events if e.kind == "call" and e.callee.endswith("archive_file")]
             md = [e for e in r.events if e.kind == "call" and re.search(r"Metadata::len$", e.callee)]
@@ -130,6 +132,7 @@ def check(rep, tier, seed):
         # one flush of the loop from an arbitrary state: from the directory listing to the next sleep; inner loops twice
         # (a second file written after the same listing must be counted against the cap as well)
         e4 = sctx.engine(loop_bound=2, max_paths=40000)
+        e4.auto_inline = sctx.new_function_auto()
         gfb = e4.find_blocks(c3[0], r"get_files$")
         n = 0
         for i, r in enumerate(e4.explore(c3[0], start_bb=gfb[0], stop_calls=r"tokio::time::sleep$|(^|::)sleep$|is_closed$") if len(gfb) == 1 else e4.explore(c3[0])):
